@@ -1027,7 +1027,6 @@ func keyTransforms(v ssa.Value) []string {
 	return bad
 }
 
-
 // unitOf: f and the functions of its own package it calls statically, to the given depth
 // (extracting a helper must not change a verdict).
 func unitOf(f *ssa.Function, depth int) []*ssa.Function {
